@@ -49,6 +49,11 @@ class Replay:
         for i, ev in enumerate(self.path.events):
             self.nfacts_before.append(len(self.facts))
             self.env_before.append(dict(sym.env))
+            if ev.kind in ("test", "stmt", "call") and ev.node is not None:
+                # (x := expr): the name is bound where the expression is evaluated
+                for ne in [x for x in ast.walk(ev.node) if isinstance(x, ast.NamedExpr)] if ev.kind != "call" else []:
+                    if isinstance(ne.target, ast.Name):
+                        sym.bind(ne.target.id, sym.lin(ne.value))
             if ev.kind == "enter":
                 g, call = ev.data, ev.node
                 bound_self = bool(g.cls is not None and not g.is_static and g.params and g.params[0] in ("self", "cls"))
